@@ -41,9 +41,10 @@ func init() {
 			"(each JSON pointer of the document, each pointer extended by a numeric token below/at/beyond the array length, by an absent pointer-typed field, " +
 			"by additionalProperties/items/not/schema, the degenerate texts \"\", #, #/, #x, external files with and without fragment) × entry point × switch; " +
 			"adversarial reference graphs (cycles through every schema keyword, same text met as two kinds, encoding headers by $ref, pure $ref cycles); " +
-			"directed blocks: path-item reference graphs (19 item shapes pairwise × 7 callback shapes: chains, cycles a→b→a, self-references, with and without '#', across three files, next to own content, below inline and referenced callbacks), " +
+			"directed blocks: path-item reference graphs (21 item shapes pairwise × 7 callback shapes: chains, cycles a→b→a, self-references, with and without '#', across three files, next to own content, below inline and referenced callbacks), " +
 			"references into extension members for every component kind (valid / nested reference of another kind back to the same text / null child / degenerate, at the component and at a use site), " +
 			"a path item with $ref and content with every position below it as null or a reference; " +
+			"external references (fragment into another document in three spellings, whole file) of every component kind at its use sites and as a component × six shapes of the root's components section; " +
 			"seeded random stream: 1–4 structure-aware mutations of valid documents (replace a subtree by null/number/string/array/object/$ref/a subtree of another kind, " +
 			"insert any OpenAPI keyword, delete, swap kinds), the same written as YAML with anchors/aliases for repeated sub-trees, merge keys, non-string keys and YAML spellings of booleans and null, " +
 			"huge scalars (1 MiB string, 64 Ki key, 400-digit numbers, 64 Ki-token fragment, 64 Ki enum), token-level mutations of the serialised text (delete/duplicate/replace/swap tokens, truncate), YAML forms " +
@@ -783,6 +784,10 @@ var c20Graphs = []string{
 	`{"openapi":"3.0.0","info":{"title":"t","version":"1"},"paths":{"/a":{"get":{"callbacks":{"c":{"/cb":{"$ref":"#/paths/~1a"}}},"responses":{"200":{"description":"ok"}}}}}}`,
 	// a path item with $ref and content; a reference into an extension member
 	`{"openapi":"3.0.0","info":{"title":"t","version":"1"},"paths":{"/a":{"$ref":"#/paths/~1b","get":{"parameters":[{"$ref":"#/components/parameters/P"}],"responses":{"200":{"description":"ok"}}}},"/b":{"get":{"responses":{"200":{"$ref":"#/x-r"}}}}},"components":{"parameters":{"P":{"name":"p","in":"query","schema":{"type":"string"}}}},"x-r":{"description":"d","headers":{"h":{"$ref":"#/x-r"}}}}`,
+	// servers of path items and operations (validated since 1f4197d): null members, null variables
+	`{"openapi":"3.0.0","info":{"title":"t","version":"1"},"paths":{"/a":{"servers":[null,{"url":"https://{a}.x","variables":{"a":null}}],"get":{"servers":[null],"responses":{"200":{"description":"ok"}}},"post":{"servers":[{"url":"/x","variables":{"b":null}}],"responses":{"200":{"description":"ok"}}}}}}`,
+	// degenerate keyword values next to a validated value
+	`{"openapi":"3.0.0","info":{"title":"t","version":"1"},"paths":{},"components":{"schemas":{"A":{"type":[],"default":1},"B":{"type":[],"example":"x"},"C":{"enum":[],"default":1},"D":{"required":[],"properties":{},"default":{}},"E":{"allOf":[],"oneOf":[],"anyOf":[],"default":1}}}}`,
 	// null server variables, null members everywhere
 	`{"openapi":"3.0.0","info":{"title":"t","version":"1"},"servers":[{"url":"https://{a}.x","variables":{"a":null}},null],"paths":{"/a":null,"/b":{"get":null,"parameters":[null],"servers":[null]}},"components":{"schemas":{"A":null},"responses":{"R":null},"parameters":{"P":null},"headers":{"H":null},"requestBodies":{"B":null},"securitySchemes":{"K":null},"examples":{"E":null},"links":{"L":null},"callbacks":{"C":null}},"tags":[null],"security":[null]}`,
 }
@@ -1171,6 +1176,7 @@ func genC20(ctx *hx.Ctx, emit func(hx.Case)) {
 	c20PathItemCases(emit)
 	c20ExtensionTargetCases(emit)
 	c20UnwalkedCases(small, emit)
+	c20ExternalUseCases(emit)
 
 	// 2. YAML forms, degenerate byte strings, deep nesting
 	for _, y := range c20YamlSpecials {
@@ -1298,6 +1304,8 @@ func c20PathItemCases(emit func(hx.Case)) {
 		`{"$ref":"o.json#/paths/~1o"}`, `{"$ref":"o.json#/paths/~1p"}`, `{"$ref":"pi.json"}`, `{"$ref":"pj.json"}`, `{"$ref":"root.json#/paths/~1a"}`, `{"$ref":"root.json#/paths/~1b"}`,
 		`{"$ref":"#/paths/~1c","get":` + c20Op + `}`, `{"$ref":"#/paths/~1b","summary":"s"}`, `null`, `{}`, `{"get":` + c20Op + `}`,
 		`{"$ref":"#/components/callbacks/C/~1cb"}`, `{"$ref":"#"}`, `{"$ref":"o.json"}`, `{"$ref":"o.json#"}`,
+		// whole files that are themselves references: a chain pc→pi, a cycle pa→pb→pa (376b90f)
+		`{"$ref":"pa.json"}`, `{"$ref":"pc.json"}`,
 	}
 	cbs := []string{
 		``, `{"c":{"/cb":{"$ref":"#/paths/~1a"}}}`, `{"c":{"/cb":{"$ref":"#/paths/~1b"}}}`, `{"c":{"/cb":{"$ref":"#/paths/~1c"}}}`,
@@ -1308,6 +1316,9 @@ func c20PathItemCases(emit func(hx.Case)) {
 		   "/s":{"get":{"callbacks":{"c":{"/cb":{"$ref":"root.json#/paths/~1c"}}},"responses":{"200":{"description":"ok"}}}}}}`),
 		"pi.json": c20Parse(`{"get":{"callbacks":{"c":{"/cb":{"$ref":"pi.json"}}},"responses":{"200":{"description":"ok"}}}}`),
 		"pj.json": c20Parse(`{"$ref":"pj.json"}`),
+		"pa.json": c20Parse(`{"$ref":"pb.json"}`),
+		"pb.json": c20Parse(`{"$ref":"./pa.json"}`),
+		"pc.json": c20Parse(`{"$ref":"pi.json"}`),
 	}
 	n := 0
 	for i, a := range items {
@@ -1412,6 +1423,83 @@ func c20UnwalkedCases(small any, emit func(hx.Case)) {
 					e = true
 				}
 				emit(c20Case(d, "json", []string{"data", "path", "file"}[n%3], e, e))
+			}
+		}
+	}
+}
+
+// c20ExternalUseCases: a reference of every kind that InternalizeRefs treats as external (into another
+// document, or a whole file) at a use site, in a root whose components section is absent / empty / has
+// only another kind / has that kind already — the add<Kind>ToSpec functions create the missing maps.
+func c20ExternalUseCases(emit func(hx.Case)) {
+	files := map[string]any{
+		"lib.json": c20Parse(`{"openapi":"3.0.0","info":{"title":"l","version":"1"},"paths":{"/l":{"get":{"responses":{"200":{"description":"ok"}}}}},"components":{
+		  "schemas":{"X":{"type":"object","properties":{"y":{"$ref":"#/components/schemas/Y"}}},"Y":{"type":"string"}},
+		  "parameters":{"X":{"name":"x","in":"query","schema":{"$ref":"#/components/schemas/Y"},"examples":{"e":{"$ref":"#/components/examples/X"}}}},
+		  "headers":{"X":{"schema":{"$ref":"#/components/schemas/Y"}}},
+		  "requestBodies":{"X":{"content":{"application/json":{"schema":{"$ref":"#/components/schemas/X"},"examples":{"e":{"$ref":"#/components/examples/X"}}}}}},
+		  "responses":{"X":{"description":"x","headers":{"h":{"$ref":"#/components/headers/X"}},"links":{"l":{"$ref":"#/components/links/X"}},"content":{"application/json":{"schema":{"$ref":"#/components/schemas/X"}}}}},
+		  "securitySchemes":{"X":{"type":"http","scheme":"basic"}},
+		  "examples":{"X":{"value":{"y":"v"}}},
+		  "links":{"X":{"operationId":"x"}},
+		  "callbacks":{"X":{"/cb":{"post":{"requestBody":{"$ref":"#/components/requestBodies/X"},"responses":{"200":{"$ref":"#/components/responses/X"}}}}}}}}`),
+		"schema1.json":   c20Parse(`{"type":"object","properties":{"y":{"$ref":"lib.json#/components/schemas/Y"}}}`),
+		"param1.json":    c20Parse(`{"name":"x","in":"query","schema":{"type":"string"}}`),
+		"header1.json":   c20Parse(`{"schema":{"type":"string"}}`),
+		"body1.json":     c20Parse(`{"content":{"application/json":{"schema":{"type":"string"}}}}`),
+		"response1.json": c20Parse(`{"description":"x"}`),
+		"example1.json":  c20Parse(`{"value":1}`),
+		"link1.json":     c20Parse(`{"operationId":"x"}`),
+		"callback1.json": c20Parse(`{"/cb":{"post":{"responses":{"200":{"description":"ok"}}}}}`),
+		"scheme1.json":   c20Parse(`{"type":"http","scheme":"basic"}`),
+	}
+	type kind struct{ name, whole, use string }
+	kinds := []kind{
+		{"schemas", "schema1.json", `{"get":{"parameters":[{"name":"p","in":"query","schema":{"$ref":"@"}}],"responses":{"200":{"description":"ok","content":{"a/b":{"schema":{"$ref":"@"}}}}}}}`},
+		{"parameters", "param1.json", `{"parameters":[{"$ref":"@"}],"get":{"parameters":[{"$ref":"@"}],"responses":{"200":{"description":"ok"}}}}`},
+		{"headers", "header1.json", `{"post":{"requestBody":{"content":{"multipart/form-data":{"encoding":{"f":{"headers":{"h":{"$ref":"@"}}}}}}},"responses":{"200":{"description":"ok","headers":{"h":{"$ref":"@"}}}}}}`},
+		{"requestBodies", "body1.json", `{"post":{"requestBody":{"$ref":"@"},"responses":{"200":{"description":"ok"}}}}`},
+		{"responses", "response1.json", `{"get":{"responses":{"200":{"$ref":"@"}}}}`},
+		{"examples", "example1.json", `{"post":{"parameters":[{"name":"p","in":"query","schema":{"type":"string"},"examples":{"e":{"$ref":"@"}}}],"requestBody":{"content":{"a/b":{"examples":{"e":{"$ref":"@"}}}}},"responses":{"200":{"description":"ok","content":{"a/b":{"examples":{"e":{"$ref":"@"}}}}}}}}`},
+		{"links", "link1.json", `{"get":{"responses":{"200":{"description":"ok","links":{"l":{"$ref":"@"}}}}}}`},
+		{"callbacks", "callback1.json", `{"get":{"callbacks":{"c":{"$ref":"@"}},"responses":{"200":{"description":"ok"}}}}`},
+		{"securitySchemes", "scheme1.json", ``},
+	}
+	comps := func(k string) []string {
+		other := "schemas"
+		if k == "schemas" {
+			other = "headers"
+		}
+		return []string{``, `{}`, `{"` + other + `":{}}`, `{"` + other + `":{"Z":` + map[string]string{"schemas": `{"type":"string"}`, "headers": `{"schema":{"type":"string"}}`}[other] + `}}`, `{"` + k + `":{}}`, `{"` + k + `":null}`}
+	}
+	n := 0
+	for _, k := range kinds {
+		for _, ref := range []string{"lib.json#/components/" + k.name + "/X", k.whole, "./lib.json#/components/" + k.name + "/X", "/r/lib.json#/components/" + k.name + "/X"} {
+			for _, c := range comps(k.name) {
+				var docs []string
+				if k.use != "" {
+					d := `{"openapi":"3.0.0","info":{"title":"t","version":"1"},"paths":{"/a":` + strings.ReplaceAll(k.use, "@", ref) + `}`
+					if c != "" {
+						d += `,"components":` + c
+					}
+					docs = append(docs, d+`}`)
+				}
+				if c != "" && c != `{"`+k.name+`":null}` {
+					// the same reference as a component of the root
+					cc := c20Parse(c).(map[string]any)
+					m, _ := cc[k.name].(map[string]any)
+					if m == nil {
+						m = map[string]any{}
+					}
+					m["A0"] = map[string]any{"$ref": ref}
+					cc[k.name] = m
+					b, _ := json.Marshal(cc)
+					docs = append(docs, `{"openapi":"3.0.0","info":{"title":"t","version":"1"},"paths":{},"components":`+string(b)+`}`)
+				}
+				for _, d := range docs {
+					emit(hx.Case{"doc": c20Parse(d), "enc": "json", "entry": []string{"path", "file"}[n%2], "ext": true, "files": files})
+					n++
+				}
 			}
 		}
 	}
